@@ -34,8 +34,17 @@ TJf == /\ IsEvent("jf") /\ Ev.off >= 0 /\ Ev.off <= Ev.len
             LET M == Ev.members
                 hit == {k \in 1..Len(M) : M[k][1] = Ev.key /\ ~M[k][2]}
             IN Ev.off = (IF hit = {} THEN Ev.len ELSE M[CHOOSE k \in hit : \A j \in hit : k <= j][3])
-TKf == IsEvent("kf") /\ Ev.rc \in {0, -1}
-TPf == IsEvent("pf") /\ Ev.rc \in {0, -1}
+\* key file and passphrase file (KeyFile.tla); contents with a NUL byte are outside the formats: value range only (C15)
+KF == INSTANCE KeyFile
+NulFree(c) == \A i \in 1..Len(c) : c[i] # 0
+TKf == /\ IsEvent("kf") /\ Ev.rc \in {0, -1}
+       /\ LET c == B(Ev.in)  r == KF!ReadKeys(c) IN
+          NulFree(c) => /\ (Ev.rc = 0) = r.ok
+                        /\ r.ok => (B(Ev.id) = r.id /\ B(Ev.secret) = r.secret)
+TPf == /\ IsEvent("pf") /\ Ev.rc \in {0, -1}
+       /\ LET c == B(Ev.in)  r == KF!ReadPass(c) IN
+          (NulFree(c) /\ KF!Documented(c)) => /\ (Ev.rc = 0) = r.ok
+                                              /\ r.ok => B(Ev.pw) = r.pw
 Next == TReset \/ TB64e \/ TB64d \/ THexe \/ THexd \/ TEn \/ TSr \/ TSd \/ TJf \/ TKf \/ TPf
 Spec == Init /\ [][Next]_vars
 =============================================================================
